@@ -132,7 +132,59 @@ def _lc_value_differs(a, b):
     return False
 
 
+# ------------------------------------------------------------------ C10
+def _model_identity_points(m, code=6):
+    """indices of all-zero coefficient vectors among the model's points"""
+    if not m or m.get(code) is None:
+        return []
+    return [i for i, v in enumerate(vlib.split_lenpref(m[code])) if all(x == 0 for x in v)]
+
+
+def search_c10(results, tier, seed, broken):
+    hits, n, nontriv = [], 0, set()
+    for comp, streams, r in results:
+        if comp != "ipp":
+            continue
+        for cid, s in r.summary.items():
+            n += 1
+            tag = s.get("tag", "")
+            v = int(tag.split("-v")[1]) if "-v" in tag else -1
+            k = int(re.search(r"k=(\d+)", s["line"]).group(1))
+            im = r.impl.get(cid) or {}
+            verdict = s.get("verdict")
+            if k >= 1:
+                nontriv.add(" ".join(im.get(1, []))[:200])
+            ident = _model_identity_points(r.model.get(cid))
+            rounds = im.get(1, ["?", "?"])[:2]
+            if rounds != [str(k), str(k)] and 98 not in im:
+                hits.append(_hit(r, comp, streams, cid, "created proof has %s/%s rounds for n = 2^%d" % (rounds[0], rounds[1], k)))
+            if v == 0:
+                if verdict != 0 and not ident:
+                    hits.append(_hit(r, comp, streams, cid, "honest inner-product proof (no identity round point) rejected: verdict %s" % verdict))
+                if verdict == 0 and ident:
+                    hits.append(_hit(r, comp, streams, cid, "proof with an identity round point accepted"))
+            elif v in (1, 2, 3, 5) or (v == 4 and k >= 1):
+                if verdict == 0:
+                    what = {1: "wrong claimed product (P + Q)", 2: "altered final scalar a", 3: "altered final scalar b", 4: "a removed round", 5: "claimed length not matching the rounds"}[v]
+                    hits.append(_hit(r, comp, streams, cid, "inner-product proof accepted with " + what))
+            elif v == 6 and k >= 1:
+                if verdict == 0:
+                    hits.append(_hit(r, comp, streams, cid, "degenerate round (identity L) accepted"))
+            if verdict == 99 or s.get("scalars") == 99:
+                hits.append(_hit(r, comp, streams, cid, "panic in inner-product verification"))
+    return hits, {"searched": n, "hits": len(hits), "distinct_nontrivial": len(nontriv), "distribution": _dist(results),
+                  "rule": "k = 0..4 (thorough 0..6); dense / sparse / 0-1 / edge / counting vectors; factor vectors 1, (1..1,u..u), y^-i, random non-zero; variants honest, P+Q, a+1, b-1, dropped round, wrong n, forced identity L; non-trivial = k >= 1; distinct = distinct (|L|,|R|,a,b)"}
+
+
 PROPS = {
+    "C10": {
+        "prop_files": ["Properties/C10.v"], "run_files": ["Run/Ipp.v"],
+        "level": "proof",
+        "components": lambda tier: [("ipp", ["ipp"], {})],
+        "search": search_c10,
+        "assumptions": ["scalar field laws, F-module laws for the group (hypotheses of the theorems)",
+                        "challenges are a function of the transcript history (oracle); non-zero where the code inverts them"],
+    },
     "C15": {
         "prop_files": ["Properties/C15.v"], "run_files": ["Run/Lc.v"],
         "level": "proof",
